@@ -526,7 +526,12 @@ def to_reaction(line, substance_keys, token, Cls, globals_=None, **kwargs):
     if token not in stoich:
         raise ValueError("Missing token: %s" % token)
 
-    reac_prod = [[y.strip() for y in x.split(" + ")] for x in stoich.split(token)]
+    # keys may contain the token (e.g. "CH2=CH2"): prefer the token delimited by spaces
+    _token = " %s " % token if " %s " % token in stoich else token
+    sides = stoich.split(_token)
+    if len(sides) != 2:
+        raise ValueError("Expected exactly one token (%s) in: %s" % (token, stoich))
+    reac_prod = [[y.strip() for y in x.split(" + ")] for x in sides]
 
     act, inact = [], []
     for elements in reac_prod:
